@@ -126,7 +126,7 @@ def validate(lines, timeout=3600):
 # ---------------------------------------------------------------------------
 # corpus of racing requests
 
-def base_state(s):
+def base_state(s, kind=''):
     """The start state of the races: a parent with a child and a second root,
     partial usage, project / user / consumer type already recorded."""
     from pv import scenarios
@@ -138,6 +138,10 @@ def base_state(s):
     s.do(op='rc_post', v=39, name='CUSTOM_RC1')
     s.put('c3', {'p1': {'VCPU': 1}, 'p3': {'DISK_GB': 5}})
     s.put('c4', {'p3': {'VCPU': 1}}, project='proj2', user='user2', ctype='MIGRATION')
+    if kind == 'C09':
+        # a deeper hierarchy for the races between moves
+        s.mk('p7', 'p2')
+        s.mk('p8', 'p1')
 
 
 def provider_writers(s, u, gen_of):
@@ -168,6 +172,8 @@ def provider_writers(s, u, gen_of):
                         entries=[]),
         'alloc_put': dict(op='alloc_put', v=39, env=env,
                           **s.entry('c1', {u: {'VCPU': 2}}, cgen=-1)),
+        # a rename touches no generation
+        'rename': dict(op='rp_update', v=39, u=u, name=u + '-renamed', parent=''),
         # the provider named in the inventories *and* in the allocations part
         'reshape_both': dict(op='reshape', v=39, env=env,
                              invs=[{'u': u, 'gen': g('reshape_both'),
@@ -187,7 +193,7 @@ def corpus(kind, s, tier, rnd):
     if kind == 'C05':
         kinds = ['inv_put_all', 'inv_put', 'inv_post', 'inv_del', 'inv_del_all',
                  'rp_traits_put', 'rp_traits_put_same', 'rp_traits_del',
-                 'agg_put', 'agg_put_legacy', 'reshape', 'reshape_both', 'alloc_put']
+                 'agg_put', 'agg_put_legacy', 'reshape', 'reshape_both', 'alloc_put', 'rename']
         same = provider_writers(s, 'p3', lambda k: cur)
         stale = provider_writers(s, 'p3', lambda k: cur - 1)
         future = provider_writers(s, 'p3', lambda k: cur + 1)
@@ -253,6 +259,31 @@ def corpus(kind, s, tier, rnd):
                     out.append(('%s|%s' % (a, b), [dict(vs[a]), dict(vs[b])]))
         out.append(('put_null|put_null_b|put_gen0', [dict(new_variants[k]) for k in ('put_null', 'put_null_b', 'put_gen0')]))
         out.append(('put_cur|put_cur_b|put_cur_empty', [dict(old_variants[k]) for k in ('put_cur', 'put_cur_b', 'put_cur_empty')]))
+    elif kind == 'C09':
+        # concurrent moves, creations and deletions in the hierarchy
+        # base: p1 <- p2, p3 root; add a deeper tree first (done by the caller's base state: p1 <- p2)
+        mv = lambda u, par, name=None: dict(op='rp_update', v=39, u=u, name=name or u, parent=par)
+        reqs9 = {
+            'p2_under_p3': mv('p2', 'p3'),
+            'p2_unparent': mv('p2', 'null'),
+            'p2_rename': mv('p2', '', name='p2x'),
+            'p3_under_p2': mv('p3', 'p2'),
+            'p3_under_p1': mv('p3', 'p1'),
+            'p1_under_p3': mv('p1', 'p3'),
+            'child_of_p2': dict(op='rp_create', v=39, u='p5', name='p5', parent='p2'),
+            'child_of_p3': dict(op='rp_create', v=39, u='p6', name='p6', parent='p3'),
+            'del_p2': dict(op='rp_delete', v=39, u='p2'),
+            'del_p3': dict(op='rp_delete', v=39, u='p3'),
+            'p2_under_p1_again': mv('p2', 'p1'),
+            'p2_under_p8': mv('p2', 'p8'),
+            'p7_under_p3': mv('p7', 'p3'),
+            'p8_under_p7': mv('p8', 'p7'),
+        }
+        ks = sorted(reqs9)
+        for i, a in enumerate(ks):
+            for b in ks[i + 1:]:
+                out.append(('%s|%s' % (a, b), [dict(reqs9[a]), dict(reqs9[b])]))
+        out.append(('p2_under_p3|p3_under_p2|child_of_p2', [dict(reqs9[k]) for k in ('p2_under_p3', 'p3_under_p2', 'child_of_p2')]))
     elif kind == 'C08':
         from pv.scenarios import INV
 
@@ -344,7 +375,7 @@ def worker(job):
     rec = tracemod.Recorder(app)
     rec.new_history()
     s = scenarios.S(rec, _random.Random(0))
-    base_state(s)
+    base_state(s, job['kind'])
     # make sure the pre-existing names exist so that requests are short
     app.snapshot('base')
     db0 = rec.state()[0]
@@ -429,7 +460,7 @@ def corpus_with_state(kind, tier, seed):
     rec = tracemod.Recorder(app)
     rec.new_history()
     s = scenarios.S(rec, _random.Random(0))
-    base_state(s)
+    base_state(s, kind)
     db0 = rec.state()[0]
     return db0, corpus(kind, s, tier, _random.Random(seed))
 
